@@ -1,5 +1,6 @@
 (** Command dispatcher of the executable model. *)
 From RP2V Require Import Base.Prelude Model.Entry.
+From RP2V Require Import Model.Generated Model.EntryTaxReport.
 Open Scope Z_scope.
 
 Definition entry (cmd : Z) (args : list Z) : list Z :=
@@ -12,4 +13,8 @@ Definition entry (cmd : Z) (args : list Z) : list Z :=
   if cmd =? 13 then entry_events args else
   if cmd =? 30 then entry_computed args else
   if cmd =? 40 then entry_parse args else
+  if cmd =? 60 then entry_tax_report tax_tables_us args else
+  if cmd =? 61 then entry_tax_report tax_tables_ie args else
+  if cmd =? 62 then entry_tax_maps args else
+  if cmd =? 63 then entry_tax_text args else
   [-999].
